@@ -235,8 +235,9 @@ def set_ifconv(on):
         f.__code__ = new if on else orig
 
 
-def install_ifconv():
-    """If-convert the fixed list of bit-level reader/writer functions (DESIGN 2.4)."""
+def install_ifconv(only=None):
+    """If-convert the fixed list of bit-level reader/writer functions (DESIGN 2.4).
+    ``only``: optional collection of function names to restrict the list."""
     import vc2_conformance.bitstream.io as bio
     import vc2_conformance.decoder.io as dio
 
@@ -249,10 +250,16 @@ def install_ifconv():
         dio.read_sint,
         dio.read_sintb,
     ):
+        if only is not None and f.__name__ not in only:
+            continue
         out[f.__module__ + "." + f.__qualname__] = if_convert(f)
     return out
 
 
 def install_all(ifconv=True):
     install_builtins()
-    return install_ifconv() if ifconv else {}
+    if not ifconv:
+        return {}
+    if ifconv is True:
+        return install_ifconv()
+    return install_ifconv(only=set(ifconv))
